@@ -79,7 +79,11 @@ fn gen_root(r: &mut Rng) -> RVal {
 
 struct Env {
     parser: liquid::Parser,
+    /// same language plus the partial `show`, which dumps its argument `v`
+    parser_p: liquid::Parser,
 }
+
+const SHOW: &str = "{{ v | vdump }}";
 
 /// a value with the same shape as `v` but more members everywhere: arrays get extra elements,
 /// objects an extra key, scalars stay
@@ -118,9 +122,16 @@ fn check_path(ctx: &mut Ctx, env: &Env, root: &RVal, idxs: &[RVal], expect: &Loo
                 RVal::Str(key) if is_ident(key) && dot_bits >> k & 1 == 1 => path.push_str(&format!(".{key}")),
                 other => path.push_str(&format!("[{}]", lit_src(other))),
             },
-            1 => {
+            1 | 4 => {
                 path.push_str(&format!("[i{k}]"));
                 data.push((format!("i{k}"), idx.clone()));
+            }
+            5 => {
+                // like 4, but the variable supplying the last index is not defined at all
+                path.push_str(&format!("[i{k}]"));
+                if k + 1 < idxs.len() {
+                    data.push((format!("i{k}"), idx.clone()));
+                }
             }
             _ => {
                 path.push_str(&format!("[ix.p{k}]"));
@@ -139,6 +150,55 @@ fn check_path(ctx: &mut Ctx, env: &Env, root: &RVal, idxs: &[RVal], expect: &Loo
         data[0].1 = decoy_for(root);
         data.push(("q".into(), root.clone()));
         prefix = "{% assign r = q %}".to_string();
+    }
+    if form >= 4 {
+        // the path handed to a partial as an include / render argument (evaluated through the
+        // non-failing lookup): the partial must see the value the path denotes; a path that denotes
+        // nothing makes the tag fail or binds nil -- never some other value
+        let missing = RVal::Nil.dump();
+        let expect5 = Look::Missing;
+        let expect = if form == 5 { &expect5 } else { expect };
+        if form == 5 && idxs.is_empty() {
+            return;
+        }
+        for tag in ["include 'show' v:", "render 'show', v:"] {
+            let src = format!("{{% {tag} {path} %}}");
+            let h = hash_str(&format!("{src}|{}", RVal::Object(data.clone()).dump()));
+            if !ctx.mine(h) {
+                continue;
+            }
+            let dataobj = RVal::Object(data.clone());
+            let replay = || json!({"kind": "render", "config": "stdlib", "template": src, "partials": [["show", SHOW]], "data": dataobj.to_json(), "expected": format!("{expect:?}")});
+            let Ok(t) = env.parser_p.parse(&src) else {
+                ctx.record(h, true);
+                ctx.violation("path:well-formed-path-rejected", &format!("{src:?} rejected"), replay);
+                continue;
+            };
+            let out = render(&t, &dataobj.to_object());
+            ctx.record(h, true);
+            ctx.count(&format!("path:form{}:len{}", form, idxs.len()));
+            match (expect, &out) {
+                (Look::Unspec, _) => ctx.count("path:not-specified"),
+                (_, Out::Panic(p)) => ctx.violation(&p.key(), &format!("{src:?} panicked: {}", p.msg), replay),
+                (Look::Missing, Out::Err(_)) => ctx.count("path:missing-argument-fails"),
+                (Look::Missing, Out::Ok(sx)) if *sx == missing => ctx.count("path:missing-argument-bound-to-nil"),
+                (Look::Missing, Out::Ok(sx)) => ctx.violation(
+                    "path:missing-step-in-argument-yields-a-value",
+                    &format!("{src:?} on {}: the argument path denotes nothing, yet the partial saw {sx}", dataobj.dump()),
+                    replay,
+                ),
+                (Look::Found(v), Out::Ok(sx)) => {
+                    if *sx != v.dump() {
+                        ctx.violation("path:wrong-value", &format!("{src:?} on {}: the argument denotes {}, the partial saw {sx}", dataobj.dump(), v.dump()), replay);
+                    } else {
+                        ctx.count("path:value-agrees");
+                    }
+                }
+                (Look::Found(v), Out::Err(e)) => ctx.violation("path:existing-path-fails", &format!("{src:?} on {}: denotes {}, but failed: {e}", dataobj.dump(), v.dump()), replay),
+                _ => {}
+            }
+        }
+        return;
     }
     let src = format!("{prefix}{{{{ {path} | vdump }}}}|{{{{ {path} }}}}");
     let h = hash_str(&format!("{src}|{}", RVal::Object(data.clone()).dump()));
@@ -192,7 +252,7 @@ fn walk(ctx: &mut Ctx, env: &Env, root: &RVal, cur: &RVal, idxs: &mut Vec<RVal>,
         let look = step(cur, &c);
         // thin out deep paths in the quick tier
         if idxs.len() <= 2 || rng.chance(1, sample_den) {
-            for form in 0..4 {
+            for form in 0..6 {
                 let bits = rng.next() as u32;
                 check_path(ctx, env, root, idxs, &look, form, bits);
                 if form == 0 {
@@ -320,7 +380,10 @@ fn literals(ctx: &mut Ctx, env: &Env) {
 
 pub fn run(ctx: &mut Ctx) {
     ctx.start_watchdog(120);
-    let env = Env { parser: parser(Config::Stdlib) };
+    let env = Env {
+        parser: parser(Config::Stdlib),
+        parser_p: crate::cfg::parser_with(Config::Stdlib, crate::cfg::Policy::Eager, &[("show".to_string(), SHOW.to_string())]).expect("c07 parser with partial"),
+    };
     let den = ctx.scale(6u32, 1u32);
     let mut rng = ctx.rng("c07-walk");
     for root in fixed_roots() {
